@@ -70,6 +70,7 @@ func fromNode(a *ast.Node, callArg bool) *rt.Node {
 		panic("nil node")
 	}
 	n := &rt.Node{Start: -1, OpPos: -1, L: -1, R: -1}
+	n.SPos = safeStartPos(a)
 	switch a.NodeType {
 	case ast.TypeIdentifier:
 		n.K = rt.KIdent
@@ -262,4 +263,14 @@ func fromNode(a *ast.Node, callArg bool) *rt.Node {
 		panic(fmt.Sprintf("unexpected node type %v", a.NodeType))
 	}
 	return n
+}
+
+// safeStartPos is the node's StartPos() offset; -2 if computing it panics.
+func safeStartPos(a *ast.Node) (p int) {
+	defer func() {
+		if r := recover(); r != nil {
+			p = -2
+		}
+	}()
+	return int(a.StartPos().Pos)
 }
